@@ -435,7 +435,6 @@ func cacheReadBuffer(seed uint64) (violation string, reads int64) {
 	r := core.NewRng(seed)
 	var wg sync.WaitGroup
 	o := &otter.Options[int, int]{
-		ExpiryCalculator: otter.ExpiryWriting[int, int](time.Hour),
 		Executor: func(fn func()) {
 			wg.Add(1)
 			go func() {
@@ -444,7 +443,12 @@ func cacheReadBuffer(seed uint64) (violation string, reads int64) {
 			}()
 		},
 	}
+	// with an expiry policy every read is recorded; without one a bounded cache records reads only once its
+	// frequency sketch is enabled (at half of the maximum): both sides of that switch must agree
 	if r.Chance(1, 2) {
+		o.ExpiryCalculator = otter.ExpiryWriting[int, int](time.Hour)
+	}
+	if o.ExpiryCalculator == nil || r.Chance(1, 2) {
 		o.MaximumSize = 64 + r.Intn(1000)
 	}
 	c, err := otter.New(o)
